@@ -1,14 +1,15 @@
 import SwimVerif.Driver
 import SwimVerif.Model.HandlersIO
+import SwimVerif.Model.HandlersFlush
 import SwimVerif.Model.HandlersMon
 
 namespace SwimVerif.Machines.C06
 open SwimVerif
 
 def c06 : Machine where
-  σ := Option Handlers.Agent
+  σ := Option Handlers.AgentIO
   init := none
-  step := fun s line => Handlers.apiLine s line
+  step := fun s line => Handlers.apiLineIO s line
   μ := Handlers.Mon
   minit := {}
   mstep := fun m line out => m.step line out
